@@ -8,6 +8,8 @@ proof:  coq/theories/C06/{PreludeR,FilletDefs,FilletProofs,ETable,ETableProofs,E
              squared rational distances, exact even-odd location): verdict OK => clauses hold at every witness,
              verdict FAIL => the clause of the property text is violated at that witness.
 tie:    G  translator units C06_fillet (addDirectedFillet) and C06_distErr (bufferDistanceError), proved equal to M;
+        G  C06_inCentre, C06_triEroded, C06_ringEroded, C06_envWidth, C06_envHeight (+ C08_ptSeg and helpers): the ring-dropping
+           decisions of BufferCurveSetBuilder, theorems proved directly about the generated text (C06/ErodeTri.v, ErodeEnv.v);
         M  the extracted count nsegs_q beside the real (private) addDirectedFillet and beside GEOSBufferWithParams_r on
            two-segment lines with turn angles round every (n + 1/2) quantum, q = 1..32;
         R  the extracted checker on the outputs of GEOSBuffer_r / GEOSBufferWithStyle_r / GEOSBufferWithParams_r /
@@ -1244,7 +1246,10 @@ def run(ctx):
         'single-sided buffers and offset curves: clauses on locations that project strictly inside one segment with every other segment farther than the bound; linear inputs only']
     quick = ctx.quick
     ok_build = ctx.build_repo('rel')
-    ctx.translate(['C06_fillet', 'C06_distErr'])
+    # the ring-dropping decisions (isRingFullyEroded / isTriangleErodedCompletely / Triangle::inCentre / Envelope::getWidth, getHeight)
+    # use C08's translated Distance::pointToSegment and its helpers: regenerated here too, so that this check never rests on stale text
+    ctx.translate(['C06_fillet', 'C06_distErr', 'C08_equals2D', 'C08_coordEq', 'C08_coordDist', 'C08_ptSeg',
+                   'C06_envWidth', 'C06_envHeight', 'C06_inCentre', 'C06_triEroded', 'C06_ringEroded'])
     ok_coq, ax = ctx.coq_build('Properties_C06')
     ok_coq = fix_assumptions(ctx, ok_coq)
     drv = ctx.ocaml_driver('C06')
